@@ -4,7 +4,8 @@ from vcore import hexs
 
 ID = "C13"
 LEVEL = "proof"
-_T = ["detached_overlap", "open_detached_overlap", "distance_test_exact", "sign_overlap", "sign_open_overlap", "xor_inplace"]
+_T = ["distance_test_exact", "distance_test_overlap", "distance_test_false", "detached_overlap", "easy_overlap", "open_detached_overlap", "open_easy_overlap",
+      "sign_overlap", "sign_open_overlap", "xor_inplace", "xor_chunks_forward", "xor_chunks_inplace", "aead_encrypt_inplace", "aead_decrypt_inplace"]
 THEOREMS = vcore.theorems_in("SodiumModel/Properties/C13.lean", _T, "Sodium.C13")
 IMPORTS = ["SodiumModel.Properties.C13"] if THEOREMS else ["SodiumModel.Model.Aead"]
 RULE = ("input and output laid out in one arena at every relative offset -80..+80 (dense) for secretbox easy / open_easy / detached / open_detached (both cipher variants), "
